@@ -96,10 +96,10 @@ let run_ms (a : string list) : string =
     String.sub r 1 (String.length r - 1)
 
 
-(* ---- replace protocol: CR f:<cur>:<old> s:<ver>:<c1,c2|->:<tail> ... p:<o,e,k<j>,..|-> / s:... p:... *)
+(* ---- replace protocol: CR f:<cur>:<old>:<tmp> s:<ver>:<c1,c2|->:<tail> ... p:<o,e,k<j>,..|-> / s:... p:... *)
 let file_str (f : file option) : string =
   match f with None -> "-" | Some x -> Printf.sprintf "%d.%d.%d" (int_of_n x.f_ver) (int_of_n x.f_bytes) (int_of_n x.f_total)
-let fs_str (fs : fsys) : string = Printf.sprintf "cur:%s old:%s" (file_str fs.cur) (file_str fs.old)
+let fs_str (fs : fsys) : string = Printf.sprintf "cur:%s old:%s tmp:%s" (file_str fs.cur) (file_str fs.old) (file_str fs.tmp)
 let parse_file (t : string) : file option =
   if t = "-" then None else
     match String.split_on_char '.' t with
@@ -109,7 +109,8 @@ let parse_outcome (t : string) : outcome =
   if t = "o" then OOk else if t = "e" then OErr
   else OKill (n_of_int (int_of_string (String.sub t 1 (String.length t - 1))))
 let sysop_str (o : sysop) : string =
-  match o with SAccess -> "A" | SRename -> "R" | SOpen -> "O" | SClose -> "C" | SWrite k -> "W" ^ string_of_int (int_of_n k)
+  match o with SUnlink -> "U" | SAccessT -> "B" | SAccess -> "A" | SRename -> "R" | SRenameT -> "T" | SOpen -> "O" | SClose -> "C"
+             | SWrite k -> "W" ^ string_of_int (int_of_n k)
 let result_str (r : result) : string = match r with Done true -> "ok" | Done false -> "err" | Dead -> "dead"
 let rec split_on (sep : string) (l : string list) : string list list =
   match l with
@@ -121,7 +122,8 @@ let run_cr (a : string list) : string =
   | [] -> "?"
   | f0 :: rest ->
     let fs0 = (match String.split_on_char ':' f0 with
-        | [_; c; o] -> { cur = parse_file c; old = parse_file o }
+        | [_; c; o; t] -> { cur = parse_file c; old = parse_file o; tmp = parse_file t }
+        | [_; c; o] -> { cur = parse_file c; old = parse_file o; tmp = None }
         | _ -> empty_fs) in
     let sessions = List.map (fun toks ->
         let saves = List.filter_map (fun t ->
@@ -150,7 +152,7 @@ let run_cr (a : string list) : string =
           (match m.m_reg with NotOpen -> "closed" | Open true -> "open-bad" | Open false -> "open")) sessions in
     String.concat " / " outs
 
-(* ---- text state reader: TX cv:<name>,.. b:<kw>.<type>.<name>.<kind>,.. t:<tok>,<tok>,..   tok = { | } | <word number> *)
+(* ---- text state reader: TX cv:<name>,.. b:<kw>.<type>.<name>.<kind>[.<k<id>|w<n>|b<id> joined by +>],.. t:<tok>,<tok>,..   tok = { | } | <word number> *)
 let run_tx (a : string list) : string =
   let field p = List.fold_left (fun acc t ->
       if String.length t >= String.length p && String.sub t 0 (String.length p) = p
@@ -159,11 +161,34 @@ let run_tx (a : string list) : string =
   let cvs = List.map (fun x -> n_of_int (int_of_string x)) (items (field "cv:")) in
   let bs = List.filter_map (fun x ->
       match String.split_on_char '.' x with
-      | [kw; ty; nm; kd] -> Some { b_kw = n_of_int (int_of_string kw); b_type = n_of_int (int_of_string ty);
-                                   b_name = n_of_int (int_of_string nm); b_kind = nat_of_int (int_of_string kd) }
+      | kw :: ty :: nm :: kd :: rest ->
+        let layout = match rest with
+          | [] -> []
+          | lay :: _ -> List.filter_map (fun e ->
+              if String.length e < 2 then None else
+                let v = int_of_string (String.sub e 1 (String.length e - 1)) in
+                match e.[0] with
+                | 'k' -> Some (DKey (n_of_int v)) | 'w' -> Some (DWords (nat_of_int v)) | 'b' -> Some (DBlock (n_of_int v))
+                | _ -> None) (String.split_on_char '+' lay) in
+        Some { b_kw = n_of_int (int_of_string kw); b_type = n_of_int (int_of_string ty);
+               b_name = n_of_int (int_of_string nm); b_kind = nat_of_int (int_of_string kd); b_layout = layout }
       | _ -> None) (items (field "b:")) in
   let toks = List.map (fun x -> if x = "{" then TO else if x = "}" then TC else TW (n_of_int (int_of_string x))) (items (field "t:")) in
   if load_c cvs bs toks then "err" else "ok"
+
+(* ---- binary state reader: TB n:<number of variables> b:<kwhex>.<typehex>.<kind>.<nvar>,.. d:<hex bytes> *)
+let run_tb (a : string list) : string =
+  let field p = List.fold_left (fun acc t ->
+      if String.length t >= String.length p && String.sub t 0 (String.length p) = p
+      then String.sub t (String.length p) (String.length t - String.length p) else acc) "" a in
+  let items s = if s = "" || s = "-" then [] else String.split_on_char ',' s in
+  let ncv = nat_of_int (int_of_string (field "n:")) in
+  let bs = List.filter_map (fun x ->
+      match String.split_on_char '.' x with
+      | [kw; ty; kd; nv] -> Some { bb_kw = unhex kw; bb_type = unhex ty; bb_kind = nat_of_int (int_of_string kd);
+                                   bb_nvar = nat_of_int (int_of_string nv) }
+      | _ -> None) (items (field "b:")) in
+  if load_bin_c ncv bs (unhex (field "d:")) then "err" else "ok"
 
 let () =
   try
@@ -173,6 +198,7 @@ let () =
       | "MS" :: a -> print_endline (run_ms a)
       | "CR" :: a -> print_endline (run_cr a)
       | "TX" :: a -> print_endline (run_tx a)
+      | "TB" :: a -> print_endline (run_tb a)
       | [] -> ()
       | _ -> print_endline "?"
     done
